@@ -21,7 +21,8 @@ import (
 //	neg   -A          not   !A
 //	fn    Op(A)       one of the documented named unary operators
 //	bin   A Op B
-//	imul  A(B)        implied multiplication: A is a lit, B the group content
+//	imul  A(B)        implied multiplication A*(B) on the * / % level: A is a lit, or X^lit
+//	                  (its text ends in a number literal), B the group content
 type Node struct {
 	K   string `json:"k"`
 	Op  string `json:"op,omitempty"`
@@ -129,7 +130,13 @@ func (p *printer) bare(n *Node) string {
 	case "fn":
 		return n.Op + "(" + p.pr(n.A) + ")"
 	case "imul":
-		return n.A.Txt + "(" + p.pr(n.B) + ")"
+		// A is a literal, or X^literal: as the left operand of a * it needs no
+		// parentheses, and its text ends in the number the group is glued to
+		l := n.A.Txt
+		if n.A.K != "lit" {
+			l = p.child(&Node{K: "bin", Op: "*"}, n.A, false)
+		}
+		return l + "(" + p.pr(n.B) + ")"
 	case "bin":
 		l := p.child(n, n.A, false)
 		r := p.child(n, n.B, true)
@@ -499,11 +506,22 @@ func (p *parser) flag(why string) {
 func (p *parser) seq() (*Node, error) {
 	var vals []*Node
 	var ops []string
+	const implied = "*(" // the omitted sign of n(..): a multiplication on the * / % level
 	reduce := func() {
 		b, a := vals[len(vals)-1], vals[len(vals)-2]
 		op := ops[len(ops)-1]
-		vals = append(vals[:len(vals)-2], &Node{K: "bin", Op: op, A: a, B: b})
+		if op == implied {
+			vals = append(vals[:len(vals)-2], &Node{K: "imul", A: a, B: b})
+		} else {
+			vals = append(vals[:len(vals)-2], &Node{K: "bin", Op: op, A: a, B: b})
+		}
 		ops = ops[:len(ops)-1]
+	}
+	lvl := func(op string) int {
+		if op == implied {
+			return lvMul
+		}
+		return level(op)
 	}
 	prev := ""
 	for {
@@ -516,16 +534,36 @@ func (p *parser) seq() (*Node, error) {
 		if t == nil || t.k == tRP {
 			break
 		}
-		if t.k != tOp || t.s == "!" {
+		op := ""
+		if t.k == tLP && !t.sp && p.i > 0 && p.t[p.i-1].k == tNum {
+			// "2(1+1)": a number directly followed by a group. Documented by
+			// example only; the statement names it with the operators it
+			// orders, so it is read as the multiplication it abbreviates. Two
+			// neighbourhoods stay open: a sign or ! in front of the number, and
+			// a * / % to the left (6/2(1+2) - the well-known disagreement on
+			// whether juxtaposition binds like * or tighter). The group is the
+			// next operand; the token is not consumed here.
+			op = implied
+			if v.K == "neg" || v.K == "not" {
+				p.flag("unary operator applied to an implied multiplication")
+			}
+		} else if t.k != tOp || t.s == "!" {
 			return nil, silentAbort{"operand follows operand"}
+		} else {
+			op = t.s
+			p.i++
 		}
-		op := t.s
-		p.i++
+		if len(ops) > 0 && ops[len(ops)-1] == implied && lvl(op) == lvPow {
+			p.flag("implied multiplication followed by ^ (does the power belong to the group or to the product?)")
+		}
 		for len(ops) > 0 {
 			top := ops[len(ops)-1]
-			lt, lo := level(top), level(op)
+			lt, lo := lvl(top), lvl(op)
 			if documented(lt) && documented(lo) {
 				if lt >= lo { // tighter, or equal level: left to right
+					if op == implied && lt == lvMul {
+						p.flag("implied multiplication right after a * / % operand (juxtaposition: like * or tighter?)")
+					}
 					reduce()
 					continue
 				}
@@ -540,6 +578,9 @@ func (p *parser) seq() (*Node, error) {
 		}
 		ops = append(ops, op)
 		prev = op
+		if op == implied {
+			prev = "*"
+		}
 	}
 	for len(ops) > 0 {
 		reduce()
@@ -602,17 +643,6 @@ func (p *parser) atom(prev string, underUnary bool) (*Node, error) {
 	switch t.k {
 	case tNum:
 		p.i++
-		if n := p.peek(); n != nil && n.k == tLP && !n.sp {
-			g, err := p.group()
-			if err != nil {
-				return nil, err
-			}
-			lp, ln := level(prev), level(p.nextOp())
-			if underUnary || !(lp == 0 || lp == lvAdd || lp == lvCmp || lp == lvBool) || !(ln == 0 || ln == lvMul || ln == lvAdd || ln == lvCmp || ln == lvBool) {
-				p.flag("implied multiplication next to an operator of the same or a tighter level")
-			}
-			return &Node{K: "imul", A: &Node{K: "lit", Txt: t.s}, B: g}, nil
-		}
 		return &Node{K: "lit", Txt: t.s}, nil
 	case tVar:
 		p.i++
@@ -723,7 +753,10 @@ func eval(n *Node, bind func(string) (float64, bool)) (v float64, undef string) 
 		}
 		return funcs[n.Op](a), ""
 	case "imul":
-		a := litValue(n.A.Txt)
+		a, u := eval(n.A, bind)
+		if u != "" {
+			return 0, u
+		}
 		b, u := eval(n.B, bind)
 		return a * b, u
 	case "bin":
